@@ -193,7 +193,7 @@ Proof. exact UnitsProofs.map_indirection_refuted. Qed.
 Print Assumptions C08_map_indirection_refuted.
 (* NOT PROVED: a syntactic inlining theorem (replace a unit child referencing v by v's children with exponents multiplied);
    it is a consequence of C08_map_is_dimension + C08_dim_compound that is not stated separately.
-   NOT PROVED: independence of [dim] from the amount of fuel above the depth of the closure. *)
+   (Independence of [dim] and of the reducers from surplus fuel: C08_dim_fuel_independent, C08_fuel_independent below.) *)
 
 (** ** scalingFactor *)
 
@@ -328,6 +328,63 @@ Theorem C08_reducers_terminate : forall fx f w, acyclic w -> (world_size w < f)%
                 define_units_map fx f w (mi, n) <> OutOfFuel /\ mult_go fx f w mi n <> OutOfFuel).
 Proof. exact UnitsProofs.reducers_terminate. Qed.
 Print Assumptions C08_reducers_terminate.
+
+(** ** fuel independence *)
+
+(** fuel_monotone: once a reducer answers (anything but OutOfFuel) with fuel f, it gives the same answer with every f' >= f. *)
+Theorem C08_fuel_monotone : forall fx w f f' a b, (f <= f')%nat ->
+  (compatible fx f w a b <> OutOfFuel -> compatible fx f' w a b = compatible fx f w a b) /\
+  (scaling_factor fx f w a b <> OutOfFuel -> scaling_factor fx f' w a b = scaling_factor fx f w a b) /\
+  (equivalent fx f w a b <> OutOfFuel -> equivalent fx f' w a b = equivalent fx f w a b).
+Proof.
+  intros fx w f f' a b Hle. split; [|split].
+  - exact (UnitsProofs.compatible_mono fx w f f' a b Hle).
+  - exact (UnitsProofs.scaling_factor_mono fx w f f' a b Hle).
+  - exact (UnitsProofs.equivalent_mono fx w f f' a b Hle).
+Qed.
+Print Assumptions C08_fuel_monotone.
+
+Theorem C08_fuel_monotone_units : forall fx w f f' mi n, (f <= f')%nat ->
+  (is_base f w mi n <> OutOfFuel -> is_base f' w mi n = is_base f w mi n) /\
+  (is_defined fx f w mi n <> OutOfFuel -> is_defined fx f' w mi n = is_defined fx f w mi n) /\
+  (define_units_map fx f w (mi, n) <> OutOfFuel -> define_units_map fx f' w (mi, n) = define_units_map fx f w (mi, n)) /\
+  (mult_go fx f w mi n <> OutOfFuel -> mult_go fx f' w mi n = mult_go fx f w mi n).
+Proof.
+  intros fx w f f' mi n Hle. split; [|split; [|split]].
+  - exact (UnitsProofs.is_base_mono w f f' mi n Hle).
+  - exact (UnitsProofs.is_defined_mono fx w f f' mi n Hle).
+  - exact (UnitsProofs.define_units_map_mono fx w f f' (mi, n) Hle).
+  - exact (UnitsProofs.mult_go_mono fx w f f' mi n Hle).
+Qed.
+Print Assumptions C08_fuel_monotone_units.
+
+(** The dimension of a fully defined units does not depend on the fuel beyond what definedness needed. *)
+Theorem C08_dim_fuel_independent : forall w f f' mi n k, (f <= f')%nat ->
+  defined_sem f w mi n = Ok true -> dim f' w mi n k = dim f w mi n k.
+Proof. exact UnitsProofs.dim_fuel_independent. Qed.
+Print Assumptions C08_dim_fuel_independent.
+
+(** fuel_sufficient (C08_reducers_terminate) + fuel_monotone: on an acyclic world every fuel above the number of units
+    objects gives the same, non-OutOfFuel, answer as the fuel the drivers use (fuel_for w = S (world_size w)); so every theorem
+    above, read at the drivers' fuel, holds at every larger fuel. *)
+Theorem C08_fuel_independent : forall fx w f, acyclic w -> (world_size w < f)%nat ->
+  (forall a b, compatible fx f w a b = compatible fx (fuel_for w) w a b /\ compatible fx f w a b <> OutOfFuel) /\
+  (forall a b, scaling_factor fx f w a b = scaling_factor fx (fuel_for w) w a b /\ scaling_factor fx f w a b <> OutOfFuel) /\
+  (forall a b, equivalent fx f w a b = equivalent fx (fuel_for w) w a b /\ equivalent fx f w a b <> OutOfFuel) /\
+  (forall mi n, is_defined fx f w mi n = is_defined fx (fuel_for w) w mi n /\
+                define_units_map fx f w (mi, n) = define_units_map fx (fuel_for w) w (mi, n) /\
+                mult_go fx f w mi n = mult_go fx (fuel_for w) w mi n) /\
+  (forall mi n k, defined_sem (fuel_for w) w mi n = Ok true -> dim f w mi n k = dim (fuel_for w) w mi n k).
+Proof. exact UnitsProofs.fuel_independent. Qed.
+Print Assumptions C08_fuel_independent.
+
+Example C08_fuel_nonvacuous :
+  acyclic w_mm /\ fuel_for w_mm = 5%nat /\
+  defined_sem (fuel_for w_mm) w_mm 0 "mm_sq" = Ok true /\
+  scaling_factor unfixed 50 w_mm (Some (0%nat, "mm_sq")) (Some (0%nat, "m2")) = Ok (FPow (6 # 1)) /\
+  dim 50 w_mm 0 "mm_sq" "metre" == 2 # 1.
+Proof. exact UnitsProofs.fuel_nonvacuous. Qed.
+Print Assumptions C08_fuel_nonvacuous.
 
 (** ** non-vacuity of the hypotheses used above *)
 Example C08_nonvacuous :
